@@ -51,6 +51,37 @@ func c02Scenarios(tier string) []*Scenario {
 			}
 		}
 	}
+	// the handler ends the call while the client's request stream is still open (no CloseSend yet)
+	for _, tr := range []string{"inproc", "http"} {
+		for _, h := range [][]string{{"r", "ret:st:9"}, {"r", "s0", "ret:st:9"}, {"r", "h:a", "t:b", "ret:st:9"}} {
+			add(tr, "", RPC{Kind: "bd", Client: []string{"S0", "R*", "R"}, Handler: h})
+		}
+		add(tr, "", RPC{Kind: "cs", Client: []string{"S0", "R*", "R"}, Handler: []string{"r", "ret:st:9"}})
+		if tr == "http" {
+			// the same with the server answering before the request has ended (net/http gives up
+			// waiting for the rest of a long upload and closes the connection after the reply)
+			for _, h := range [][]string{{"r", "ret:st:9"}, {"r", "s0", "ret:st:9"}} {
+				add(tr, "", RPC{Kind: "bd", Client: []string{"S0", "R*", "R"}, Handler: h})
+				sc := out[len(out)-1]
+				sc.EnvGiveUp = true
+				sc.Name += "|env=giveup"
+			}
+		}
+	}
+	// the handler ends the call with a status of its own once its context is done, and the
+	// server-side deadline (armed from GRPC-Timeout) may pass before the caller's own timer fires:
+	// the caller sees that status or its own DeadlineExceeded / Canceled, nothing else
+	for _, tr := range []string{"inproc", "http"} {
+		for _, c := range []string{"deadline", "cancel"} {
+			add(tr, c, RPC{Kind: "ss", Client: []string{"S0", "C", "R*", "R"}, Handler: []string{"r", "w", "ret:st:10"}})
+			add(tr, c, RPC{Kind: "ss", Client: []string{"S0", "C", "R*", "R"}, Handler: []string{"r", "s0", "w", "ret:st:10"}})
+			add(tr, c, RPC{Kind: "cs", Client: []string{"S0", "C", "R*", "R"}, Handler: []string{"r*", "w", "ret:st:10"}})
+			if tier == "thorough" {
+				add(tr, c, RPC{Kind: "unary", Client: []string{"I"}, Handler: []string{"dec", "w", "ret:st:10"}})
+				add(tr, c, RPC{Kind: "bd", Client: []string{"S0", "C", "R*", "R"}, Handler: []string{"r*", "s0", "w", "ret:st:10"}})
+			}
+		}
+	}
 	return out
 }
 
@@ -76,6 +107,13 @@ func c02Oracle(sc *Scenario, rec *Rec, s *mc.Sched) []mc.Violation {
 		}
 		if res == "nil" && rpc.serverStreams() {
 			continue // a message
+		}
+		if sc.Cancel != "" && !success && res != "nil" && !(res == "EOF" && k > 0) {
+			// interfered with: the handler's status or the cancellation's, nothing else
+			want := map[string]string{"cancel": "Canceled", "deadline": "DeadlineExceeded"}[sc.Cancel]
+			if c := statusCodeOf(res); c != want && (ref.Status == "nil" || (ref.Code != "any" && c != ref.Code)) {
+				add("foreign-status", fmt.Sprintf("handler returned %s, the context ended (%s), receive #%d reported %s", ref.Code, want, k, normFinal(res)))
+			}
 		}
 		if sc.Cancel == "" && !success && res != "nil" && ref.Status != "nil" {
 			// undisturbed: the handler's status, exactly
